@@ -24,30 +24,77 @@ AndW(a, k) == <<And16(a[1], k[1], 1), And16(a[2], k[2], 1)>>
 Zero == <<0, 0>>
 W(n) == <<0, n>>       \* a 32-bit value < 65536
 
-\* ---- interpreter ---------------------------------------------------------
+\* ---- 32-bit arithmetic on <<hi16, lo16>> pairs --------------------------------
+RECURSIVE Bit16(_, _, _, _)
+Bit16(op, a, b, bit) == IF bit > 32768 THEN 0
+                        ELSE LET x == (a \div bit) % 2  y == (b \div bit) % 2
+                                 r == CASE op = "or" -> IF x + y > 0 THEN 1 ELSE 0 [] op = "xor" -> (x + y) % 2 [] OTHER -> x * y
+                             IN r * bit + Bit16(op, a, b, bit * 2)
+BitW(op, a, b) == <<Bit16(op, a[1], b[1], 1), Bit16(op, a[2], b[2], 1)>>
+Add32(a, b) == LET lo == a[2] + b[2] IN <<(a[1] + b[1] + lo \div 65536) % 65536, lo % 65536>>
+Neg32(a) == Add32(<<65535 - a[1], 65535 - a[2]>>, <<0, 1>>)
+Sub32(a, b) == Add32(a, Neg32(b))
+Pow2(n) == CASE n = 0 -> 1 [] n = 1 -> 2 [] n = 2 -> 4 [] n = 3 -> 8 [] n = 4 -> 16 [] n = 5 -> 32 [] n = 6 -> 64 [] n = 7 -> 128 [] n = 8 -> 256
+             [] n = 9 -> 512 [] n = 10 -> 1024 [] n = 11 -> 2048 [] n = 12 -> 4096 [] n = 13 -> 8192 [] n = 14 -> 16384 [] n = 15 -> 32768 [] OTHER -> 65536
+Lsh32(a, n) == IF n >= 32 THEN Zero
+               ELSE IF n >= 16 THEN <<(a[2] * Pow2(n - 16)) % 65536, 0>>
+               ELSE <<(a[1] * Pow2(n) + (a[2] * Pow2(n)) \div 65536) % 65536, (a[2] * Pow2(n)) % 65536>>
+Rsh32(a, n) == IF n >= 32 THEN Zero
+               ELSE IF n >= 16 THEN <<0, a[1] \div Pow2(n - 16)>>
+               ELSE <<a[1] \div Pow2(n), (a[2] \div Pow2(n)) + (a[1] % Pow2(n)) * Pow2(16 - n)>>
+Gt32(a, b) == a[1] > b[1] \/ (a[1] = b[1] /\ a[2] > b[2])
+Small(v) == v[1] = 0                     \* usable as an offset / shift count
+NoMem == [m \in 0..15 |-> Zero]
+
+\* ---- interpreter: the whole classic-BPF instruction set (mul/div/mod excepted) ----
 \* returns TRUE (accept: non-zero return) or FALSE (drop, or a load outside the frame)
-RECURSIVE Exec(_, _, _, _, _)
-Exec(p, f, pc, A, X) ==
+RECURSIVE Exec(_, _, _, _, _, _)
+Exec(p, f, pc, A, X, M) ==
     IF pc > Len(p) THEN FALSE
-    ELSE LET i == p[pc]  k == i.k[1] * 65536 * 0 + i.k[2]   \* offsets / small constants live in the low half
+    ELSE LET i == p[pc]  k == i.k[2]            \* offsets / small constants live in the low half
              kk == <<i.k[1], i.k[2]>>
-             jmp(c) == Exec(p, f, pc + 1 + (IF c THEN i.jt ELSE i.jf), A, X)
-         IN CASE i.op = 40 (* 0x28 ldh abs *) -> (IF InB(f, k, 2) THEN Exec(p, f, pc + 1, W(U16(f, k)), X) ELSE FALSE)
-              [] i.op = 48 (* 0x30 ldb abs *) -> (IF InB(f, k, 1) THEN Exec(p, f, pc + 1, W(B(f, k)), X) ELSE FALSE)
-              [] i.op = 32 (* 0x20 ld abs  *) -> (IF InB(f, k, 4) THEN Exec(p, f, pc + 1, W32(f, k), X) ELSE FALSE)
-              [] i.op = 72 (* 0x48 ldh ind *) -> (IF InB(f, X + k, 2) THEN Exec(p, f, pc + 1, W(U16(f, X + k)), X) ELSE FALSE)
-              [] i.op = 80 (* 0x50 ldb ind *) -> (IF InB(f, X + k, 1) THEN Exec(p, f, pc + 1, W(B(f, X + k)), X) ELSE FALSE)
-              [] i.op = 64 (* 0x40 ld ind  *) -> (IF InB(f, X + k, 4) THEN Exec(p, f, pc + 1, W32(f, X + k), X) ELSE FALSE)
-              [] i.op = 177 (* 0xb1 ldxb 4*([k]&0xf) *) -> (IF InB(f, k, 1) THEN Exec(p, f, pc + 1, A, 4 * (B(f, k) % 16)) ELSE FALSE)
-              [] i.op = 21 (* 0x15 jeq  *) -> jmp(A = kk)
-              [] i.op = 69 (* 0x45 jset *) -> jmp(AndW(A, kk) # Zero)
-              [] i.op = 37 (* 0x25 jgt  *) -> jmp(A[1] > kk[1] \/ (A[1] = kk[1] /\ A[2] > kk[2]))
-              [] i.op = 53 (* 0x35 jge  *) -> jmp(A[1] > kk[1] \/ (A[1] = kk[1] /\ A[2] >= kk[2]))
-              [] i.op = 5  (* 0x05 ja   *) -> Exec(p, f, pc + 1 + k, A, X)
+             jmp(c) == Exec(p, f, pc + 1 + (IF c THEN i.jt ELSE i.jf), A, X, M)
+             setA(v) == Exec(p, f, pc + 1, v, X, M)
+             setX(v) == Exec(p, f, pc + 1, A, v, M)
+             abs(n) == Small(kk) /\ InB(f, k, n)
+             ind(n) == Small(kk) /\ Small(X) /\ InB(f, X[2] + k, n)
+             alu(op, v) == CASE op = 0 -> setA(Add32(A, v)) [] op = 1 -> setA(Sub32(A, v))
+                             [] op = 4 -> setA(BitW("or", A, v)) [] op = 5 -> setA(BitW("and", A, v)) [] op = 10 -> setA(BitW("xor", A, v))
+                             [] op = 6 -> setA(IF Small(v) THEN Lsh32(A, v[2]) ELSE Zero)
+                             [] op = 7 -> setA(IF Small(v) THEN Rsh32(A, v[2]) ELSE Zero)
+                             [] op = 8 -> setA(Neg32(A))
+                             [] OTHER -> Assert(FALSE, <<"Bpf.tla: unmodelled ALU operation (mul/div/mod)", i.op>>)
+         IN CASE i.op = 40 (* 0x28 ldh abs *) -> (IF abs(2) THEN setA(W(U16(f, k))) ELSE FALSE)
+              [] i.op = 48 (* 0x30 ldb abs *) -> (IF abs(1) THEN setA(W(B(f, k))) ELSE FALSE)
+              [] i.op = 32 (* 0x20 ld abs  *) -> (IF abs(4) THEN setA(W32(f, k)) ELSE FALSE)
+              [] i.op = 72 (* 0x48 ldh ind *) -> (IF ind(2) THEN setA(W(U16(f, X[2] + k))) ELSE FALSE)
+              [] i.op = 80 (* 0x50 ldb ind *) -> (IF ind(1) THEN setA(W(B(f, X[2] + k))) ELSE FALSE)
+              [] i.op = 64 (* 0x40 ld ind  *) -> (IF ind(4) THEN setA(W32(f, X[2] + k)) ELSE FALSE)
+              [] i.op = 177 (* 0xb1 ldxb 4*([k]&0xf) *) -> (IF abs(1) THEN setX(W(4 * (B(f, k) % 16))) ELSE FALSE)
+              [] i.op = 0   (* 0x00 ld imm  *) -> setA(kk)
+              [] i.op = 1   (* 0x01 ldx imm *) -> setX(kk)
+              [] i.op = 128 (* 0x80 ld len  *) -> setA(W(Len(f)))
+              [] i.op = 129 (* 0x81 ldx len *) -> setX(W(Len(f)))
+              [] i.op = 96  (* 0x60 ld mem  *) -> (IF Small(kk) /\ k < 16 THEN setA(M[k]) ELSE FALSE)
+              [] i.op = 97  (* 0x61 ldx mem *) -> (IF Small(kk) /\ k < 16 THEN setX(M[k]) ELSE FALSE)
+              [] i.op = 2   (* 0x02 st      *) -> (IF Small(kk) /\ k < 16 THEN Exec(p, f, pc + 1, A, X, [M EXCEPT ![k] = A]) ELSE FALSE)
+              [] i.op = 3   (* 0x03 stx     *) -> (IF Small(kk) /\ k < 16 THEN Exec(p, f, pc + 1, A, X, [M EXCEPT ![k] = X]) ELSE FALSE)
+              [] i.op = 7   (* 0x07 tax     *) -> setX(A)
+              [] i.op = 135 (* 0x87 txa     *) -> setA(X)
+              [] i.op % 8 = 4 /\ i.op < 176 (* alu: 0x04 | op<<4 | src(0x08) *) -> alu(i.op \div 16, IF (i.op \div 8) % 2 = 1 THEN X ELSE kk)
+              [] i.op = 21 (* 0x15 jeq k *) -> jmp(A = kk)
+              [] i.op = 29 (* 0x1d jeq x *) -> jmp(A = X)
+              [] i.op = 69 (* 0x45 jset k *) -> jmp(BitW("and", A, kk) # Zero)
+              [] i.op = 77 (* 0x4d jset x *) -> jmp(BitW("and", A, X) # Zero)
+              [] i.op = 37 (* 0x25 jgt k *) -> jmp(Gt32(A, kk))
+              [] i.op = 45 (* 0x2d jgt x *) -> jmp(Gt32(A, X))
+              [] i.op = 53 (* 0x35 jge k *) -> jmp(Gt32(A, kk) \/ A = kk)
+              [] i.op = 61 (* 0x3d jge x *) -> jmp(Gt32(A, X) \/ A = X)
+              [] i.op = 5  (* 0x05 ja   *) -> (IF Small(kk) THEN Exec(p, f, pc + 1 + k, A, X, M) ELSE FALSE)
               [] i.op = 6  (* 0x06 ret k *) -> kk # Zero
               [] i.op = 22 (* 0x16 ret a *) -> A # Zero
               [] OTHER -> Assert(FALSE, <<"Bpf.tla: unmodelled opcode", i.op>>)
-Verdict(pr, f) == Exec(pr.prog, f, 1, Zero, 0)
+Verdict(pr, f) == Exec(pr.prog, f, 1, Zero, Zero, NoMem)
 
 \* ---- reference predicates (declarative, on the bytes) ---------------------
 Eth(f) == IF InB(f, 12, 2) THEN U16(f, 12) ELSE -1
@@ -72,6 +119,7 @@ RefTuple(c, f) ==
                InB(f, x + 14, 4) /\ U16(f, x + 14) = c.sport /\ U16(f, x + 16) = c.dport
 Ref(c, f) == CASE c.name = "icmp" -> RefICMP(f) [] c.name = "udp" -> RefUDP(f) [] c.name = "synack" -> RefSYNACK(f)
                [] c.name = "dropall" -> FALSE [] c.name = "tcp" -> RefTuple(c, f)
+               [] c.name = "selftest" -> Verdict(c, f)      \* no reference: these programs only feed the interpreter-vs-VM cross-check
 
 \* what the matchers behind each filter can turn into a hop or handshake (well-formed frames only)
 WellFormed4(f) == Eth(f) = 2048 /\ InB(f, 14, 20) /\ B(f, 14) \div 16 = 4 /\ B(f, 14) % 16 >= 5 /\ InB(f, 14, 4 * (B(f, 14) % 16))
@@ -141,6 +189,6 @@ ProgramsExtracted == \A i \in DOMAIN Progs : Progs[i].err = "" /\ Len(Progs[i].p
 
 \* sample of concrete frames with the interpreter's verdict, for cross-checking against the real VM
 SampleOut == IOEnv.VT_SAMPLE
-EmitSample == (fr # <<>> /\ SampleOut = "1" /\ RandomElement(1..40) = 1) =>
+EmitSample == (fr # <<>> /\ SampleOut = "1" /\ RandomElement(1..(IF Progs[pi].name = "selftest" THEN 4 ELSE 40)) = 1) =>
                  PrintT(<<"FRAME", ToJson([prog |-> pi, frame |-> fr, verdict |-> Verdict(Progs[pi], fr)])>>)
 =============================================================================
